@@ -193,6 +193,7 @@ type SessionOpts struct {
 	CloseAtEnd  bool
 	Fault       func(d *simdisk.Disk) // optional: configure fault injection before Open
 	MaxSteps    int
+	Lazy        bool                                              // do not wait for background work between ops: the next call is issued while a rotation may still be pending
 	Sys         *Sys                                              // run on this (already mounted, e.g. real-filesystem) system instead of mounting st
 	AfterStep   func(i int, op Op, err error, s *Sys) []Violation // extra per-step oracle (i = 0 for Open)
 }
@@ -258,7 +259,9 @@ func RunSession(st *simdisk.State, cfg Config, ops []Op, so SessionOpts) *Sessio
 			d.Mark(simdisk.OpCall, i+1, op.K)
 			err := sys.Apply(op)
 			d.Mark(simdisk.OpAck, i+1, fmt.Sprint(err))
-			vsched.Quiesce()
+			if !so.Lazy || i == len(ops)-1 {
+				vsched.Quiesce()
+			}
 			r.Errs = append(r.Errs, err)
 			if so.AfterStep != nil {
 				r.Viol = append(r.Viol, so.AfterStep(i+1, op, err, sys)...)
@@ -491,17 +494,19 @@ type CrashCfg struct {
 	Deadline       time.Time
 	Shard          int
 	NShards        int
-	ExpandPerClass int // per crash point and recovery outcome: expand the N images with fewest non-landed items and the N with fewest landed items (0 = all)
+	Lazy           bool // record every workload of two or more ops a second time without waiting for the background rotation between calls
+	ExpandPerClass int  // per crash point and recovery outcome: expand the N images with fewest non-landed items and the N with fewest landed items (0 = all)
 	MaxFindings    int
 }
 
 type LeafRes struct {
-	obs      *Obs
-	openErr  string
-	model    *Model
-	contViol []Violation
-	contOps  []Op
-	panicV   []Violation
+	reopenViol []string
+	obs        *Obs
+	openErr    string
+	model      *Model
+	contViol   []Violation
+	contOps    []Op
+	panicV     []Violation
 }
 
 type CrashStats struct {
@@ -575,8 +580,15 @@ func (e *CrashEngine) leaf(st *simdisk.State) *LeafRes {
 	}
 	e.Stats.Recoveries++
 	lr := &LeafRes{}
-	sr := RunSession(st, e.Cfg, nil, SessionOpts{CloseAtEnd: true})
+	// Open, observe, clean Close, Open, observe: what a recovery shows must not
+	// change when the recovered WAL is simply reopened.
+	sr := RunSession(st, e.Cfg, []Op{{K: "R"}}, SessionOpts{CloseAtEnd: true, ObserveEach: true, CmpProp: "REOPEN"})
 	lr.obs = sr.OpenObs
+	for _, v := range sr.Viol {
+		if v.Prop == "REOPEN" {
+			lr.reopenViol = append(lr.reopenViol, v.Msg)
+		}
+	}
 	if lr.obs == nil {
 		lr.obs = &Obs{OpenErr: "no observation (panic?)"}
 	}
@@ -703,8 +715,16 @@ func (e *CrashEngine) expand(n *node, level int) []*node {
 
 // crashWorkload records Open+ops on n's image and checks every crash image.
 func (e *CrashEngine) crashWorkload(n *node, level int, ops []Op) []*node {
+	kids := e.crashWorkloadMode(n, level, ops, false)
+	if e.C.Lazy && len(ops) >= 2 {
+		kids = append(kids, e.crashWorkloadMode(n, level, ops, true)...)
+	}
+	return kids
+}
+
+func (e *CrashEngine) crashWorkloadMode(n *node, level int, ops []Op, lazy bool) []*node {
 	e.Stats.Workloads++
-	sr := RunSession(n.st, e.Cfg, ops, SessionOpts{ObserveEach: true, CmpProp: "C05", Base: n.model})
+	sr := RunSession(n.st, e.Cfg, ops, SessionOpts{ObserveEach: true, CmpProp: "C05", Base: n.model, Lazy: lazy})
 	for _, v := range sr.Viol {
 		if level > 1 && v.Prop == "C05" {
 			// a valid operation refused (or answered wrongly) by a WAL that was recovered from a crash image
@@ -767,6 +787,16 @@ func (e *CrashEngine) crashWorkload(n *node, level int, ops []Op) []*node {
 			step := PathStep{Ops: ops, K: cp.K, Variant: cp.Variant, Img: ih, ImgDesc: info.Desc, Pending: pend}
 			path := append(append([]PathStep(nil), n.path...), step)
 			vs := CheckRecovery(lr.obs, legal, inflight)
+			for _, m := range lr.reopenViol {
+				msg := "the state shown by the recovery does not survive a clean reopen: " + m
+				switch {
+				case inflight == "D":
+					vs = append(vs, Violation{Prop: "C04", Msg: msg})
+				case len(legal[0].Acked) > 0:
+					vs = append(vs, Violation{Prop: "C01", Msg: msg})
+				}
+				vs = append(vs, Violation{Prop: "C02", Msg: msg}, Violation{Prop: "C03", Msg: msg})
+			}
 			vs = append(vs, lr.panicV...)
 			vs = append(vs, lr.contViol...)
 			for _, v := range vs {
